@@ -55,6 +55,27 @@ def eval_both(binary, program):
     return out
 
 
+OTHER_JS = {"Ident": None, "Int": "7", "Num": "1.5", "BigInt": "3n", "Str": "'arguments'", "Null": "null"}
+# operand values for the differential witness runs of a rewrite whose non-literal operand is an identifier
+WITNESS_VALUES = ["0", "-0", "1", "-7", "2.5", "NaN", "Infinity", "-Infinity", "5e-324", "1e308", "2147483647", "-2147483648",
+                  "3n", "0n", "'5'", "''", "'x'", "null", "undefined", "true", "[]", "({})"]
+
+
+def witness_programs(op, lit, other, lit_left):
+    js = OP_JS[op]
+    def expr(x):
+        return ("(%d %s %s)" % (lit, js, x)) if lit_left else ("(%s %s %d)" % (x, js, lit))
+    show = "function show(v) { return typeof v + ':' + (Object.is(v, -0) ? '-0' : String(v)); } "
+    progs = []
+    if other == "Ident":
+        for val in WITNESS_VALUES:
+            progs.append(show + "var x = %s; var out; try { out = show%s; } catch (e) { out = e.name; } out" % (val, expr("x")))
+        progs.append(show + "var c = 0; var x = { valueOf() { c++; return 3; } }; var out; try { out = show%s + ',calls=' + c; } catch (e) { out = e.name; } out" % expr("x"))
+    else:
+        progs.append(show + "var out; try { out = show%s; } catch (e) { out = e.name; } out" % expr(OTHER_JS[other]))
+    return progs
+
+
 def engine(pid, tier, seed, verdict, ev, only):
     import c03
     import json
@@ -64,63 +85,50 @@ def engine(pid, tier, seed, verdict, ev, only):
         verdict["inconclusive"].append("C05: " + err)
         return
     lits = LITERALS if tier == "quick" else sorted(set(LITERALS + list(range(-40, 41)) + [2 ** k for k in range(31)]))
-    p = subprocess.run([binary, "--sr-probe"] + [str(x) for x in lits], stdout=subprocess.PIPE, stderr=subprocess.PIPE, timeout=600)
+    p = subprocess.run([binary, "--sr-probe"] + [str(x) for x in lits], stdout=subprocess.PIPE, stderr=subprocess.PIPE, timeout=900)
     lines = [l for l in p.stdout.decode().split("\n") if l.strip()]
-    if len(lines) != 36 * len(lits):
-        verdict["inconclusive"].append("C05: probe produced %d lines, expected %d" % (len(lines), 36 * len(lits)))
+    if len(lines) != 72 * len(lits):
+        verdict["inconclusive"].append("C05: probe produced %d lines, expected %d" % (len(lines), 72 * len(lits)))
         return
-    known = [f for f in json.load(open(os.path.join(VERIF, "known_findings.json")))["findings"] if f["property"] == pid]
     rewrites = []
     for line in lines:
         parts = line.split()
-        # <op> <literal> <lhs-kind> Keep | ... Replace <newop> <rhs-kind> <rhs-value>
-        if parts[3] != "Keep":
-            rewrites.append({"op": parts[0], "lit": int(parts[1]), "lhs": parts[2], "action": parts[3],
-                             "new_op": parts[4] if len(parts) > 4 else "", "rhs_kind": parts[5] if len(parts) > 5 else "",
-                             "rhs": parts[6] if len(parts) > 6 else ""})
+        # <op> <literal> <other-kind> <LitLeft|LitRight> Keep | ... Replace <newop> <rhs-kind> <rhs-value>
+        if parts[4] != "Keep":
+            rewrites.append({"op": parts[0], "lit": int(parts[1]), "other": parts[2], "lit_left": parts[3] == "LitLeft", "action": parts[4],
+                             "new_op": parts[5] if len(parts) > 5 else "", "rhs_kind": parts[6] if len(parts) > 6 else "",
+                             "rhs": parts[7] if len(parts) > 7 else ""})
     identities = {}
     witnesses = 0
+    mismatches = 0
     for r in rewrites:
-        desc0 = "%s %s %d with a %s left operand -> %s %s %s" % (r["lhs"], OP_JS.get(r["op"], r["op"]), r["lit"], r["lhs"], r["new_op"], r["rhs_kind"], r["rhs"])
+        desc0 = "%s with a %s operand and the literal %d on the %s -> %s %s %s" % (
+            OP_JS.get(r["op"], r["op"]), r["other"], r["lit"], "left" if r["lit_left"] else "right", r["new_op"], r["rhs_kind"], r["rhs"])
         if r["action"] != "Replace":
             verdict["inconclusive"].append("C05: unexpected pass action: " + desc0)
             continue
-        if r["rhs_kind"] == "Num" and r["op"] in FP_OP and r["new_op"] in FP_OP:
-            key = (r["op"], r["lit"], r["new_op"], r["rhs"])
-            identities.setdefault(key, []).append(r["lhs"])
-        elif r["rhs_kind"] == "SameOperand":
-            # the operand is duplicated: only sound when evaluating/converting it twice is unobservable and gives the
-            # same value, i.e. for numeric literals.  Decide by running the REAL engine on witness programs derived
-            # from the rewrite, optimizer on vs off.
-            if r["lhs"] in ("Int", "Num"):
+        # (1) every observed rewrite is validated by differential runs of the REAL engine (optimizer on / off) on witness programs
+        for prog in witness_programs(r["op"], r["lit"], r["other"], r["lit_left"]):
+            res = eval_both(binary, prog)
+            witnesses += 1
+            if len(ev["extra"].setdefault("witness_programs", [])) < 30:
+                ev["extra"]["witness_programs"].append({"program": prog[-160:], "result": res})
+            if "optimized" not in res or "unoptimized" not in res:
+                verdict["inconclusive"].append("C05: witness program did not run: %r" % (res,))
                 continue
-            js = OP_JS[r["op"]]
-            progs = {
-                "Ident": ["var c = 0; var x = { valueOf() { c++; return 3; } }; var r = x %s %d; String(r) + ',' + c" % (js, r["lit"]),
-                          "var x = 3n; var out; try { out = String(x %s %d); } catch (e) { out = e.name; } out" % (js, r["lit"])],
-                "BigInt": ["var out; try { out = String(3n %s %d); } catch (e) { out = e.name; } out" % (js, r["lit"])],
-                "Str": ["var out = 'arguments' %s %d; String(out)" % (js, r["lit"])],
-                "Null": ["String(null %s %d)" % (js, r["lit"])],
-            }[r["lhs"]]
-            for prog in progs:
-                res = eval_both(binary, prog)
-                witnesses += 1
-                ev["extra"].setdefault("witness_programs", []).append({"program": prog, "result": res})
-                if "optimized" not in res or "unoptimized" not in res:
-                    verdict["inconclusive"].append("C05: witness program did not run: %r" % (res,))
-                    continue
-                if res["optimized"] != res["unoptimized"]:
-                    kf = [k for k in known if k.get("key") == "exp2-duplicates-operand" and r["op"] == "Exp" and r["lit"] == 2]
-                    if kf:
-                        continue
+            if res["optimized"] != res["unoptimized"]:
+                mismatches += 1
+                if mismatches <= 3:
                     d = os.path.join(VERIF, "replays", pid)
                     os.makedirs(d, exist_ok=True)
-                    path = os.path.join(d, "c05_dup_%s_%d_%s_%d.json" % (r["op"], r["lit"], r["lhs"], witnesses))
+                    path = os.path.join(d, "c05_diff_%s_%d_%s_%d.json" % (r["op"], r["lit"], r["other"], witnesses))
                     json.dump({"kind": "c05-dup", "rewrite": r, "program": prog, "result": res}, open(path, "w"), indent=1)
-                    verdict["violations"].append({"replay": path, "what": "rewrite %s duplicates a non-literal operand; witness %r evaluates to %s with the optimizer and %s without" % (
-                        desc0, prog, res["optimized"], res["unoptimized"])})
-        else:
-            verdict["inconclusive"].append("C05: rewrite shape not understood: " + desc0)
+                    verdict["violations"].append({"replay": path, "what": "rewrite of %s changes behaviour: witness %r evaluates to %s with the optimizer and %s without" % (
+                        desc0, prog[-120:], res["optimized"], res["unoptimized"])})
+        # (2) float rewrites of the form  x op L -> x op' c  additionally get an SMT identity over ALL doubles
+        if r["rhs_kind"] == "Num" and r["op"] in FP_OP and r["new_op"] in FP_OP and not r["lit_left"]:
+            key = (r["op"], r["lit"], r["new_op"], r["rhs"])
+            identities.setdefault(key, []).append(r["other"])
     n_q = 0
     for (op, lit, new_op, rhs), lhss in identities.items():
         text = smt_identity(op, lit, new_op, int(rhs))
@@ -130,7 +138,7 @@ def engine(pid, tier, seed, verdict, ev, only):
         ev["queries"] += 2
         ev["solver_time_s"] += ta + tb
         ev["obligations"] += 1
-        desc = "∀ x∈Float64: x %s %d == x %s %r (operator and constant reported by the real pass for left operands %s)" % (
+        desc = "∀ x∈Float64: x %s %d == x %s %r (operator and constant reported by the real pass for operands %s)" % (
             OP_JS[op], lit, OP_JS[new_op], _f(int(rhs)), "/".join(sorted(set(lhss))))
         if a == "unsat" and b == "unsat":
             ev["discharged"] += 1
@@ -145,11 +153,12 @@ def engine(pid, tier, seed, verdict, ev, only):
         else:
             verdict["inconclusive"].append("C05: solvers disagree or failed on %s: z3=%s cvc5=%s" % (desc, a, b))
     ev["engines"].append({"engine": "probe+smt-fp+differential-replay", "wall_s": round(time.time() - t0, 1), "rewrites_observed": rewrites[:40],
-                          "literals_probed": len(lits), "probe_cases": len(lines)})
+                          "literals_probed": len(lits), "probe_cases": len(lines), "witness_runs": witnesses})
     ev["cmds"].append("verif_c03 --sr-probe <literals> ;; z3 -in ;; cvc5 --lang smt2 ;; verif_c03 --eval-both <witness.js>")
     ev["extra"].update({"programs": len(lines), "disagreements_checked": n_q // 2 + witnesses, "rewrites_observed": len(rewrites)})
-    ev["samples"].append({"harness": "c05_probe", "domain": "for each op ∈ {/,**,*,+,-,%%} × literal ∈ %d int32 values × left operand kind ∈ {identifier, int, double, bigint, string, null}" % len(lits),
-                          "claim": "the real pass rewrites only the cases listed under rewrites_observed; each is validated by an SMT identity over all doubles or by a differential run of the real engine", "bounds": "probe set is enumerated, not symbolic"})
+    ev["samples"].append({"harness": "c05_probe", "domain": "for each op ∈ {/,**,*,+,-,%%} × literal ∈ %d int32 values × literal side ∈ {left,right} × other operand kind ∈ {identifier, int, double, bigint, string, null}" % len(lits),
+                          "claim": "the real pass rewrites only the cases listed under rewrites_observed; each is validated by differential runs of the real engine (optimizer on/off) over %d operand values, float rewrites additionally by an SMT identity over all doubles" % len(WITNESS_VALUES),
+                          "bounds": "probe set and witness values are enumerated, not symbolic"})
 
 
 def _f(bits):
